@@ -398,6 +398,28 @@ fn run_c09<A: Alphabet>(f: &HashMap<String, String>) -> String {
             if f["multi"] == "1" {
                 let enc: Vec<EncodedSequence<A>> = seqs.into_iter().map(EncodedSequence::new).collect();
                 fmt_bg_result(no_panic(|| Background::<A>::from_sequences(enc.clone().into_iter(), unk)))
+            } else if f["multi"] == "2" {
+                // SymbolCount for StripedSequence (padding cells must not be counted)
+                let s = seqs.into_iter().next().unwrap_or_default();
+                let cols: usize = f.get("cols").map(|s| s.parse().unwrap()).unwrap_or(32);
+                let wrap: usize = f.get("wrap").map(|s| s.parse().unwrap()).unwrap_or(0);
+                if cols == 4 {
+                    fmt_bg_result(no_panic(|| {
+                        let mut st: StripedSequence<A, U4> = Pipeline::<A, _>::generic().stripe(&s[..]);
+                        if wrap > 0 {
+                            st.configure_wrap(wrap);
+                        }
+                        Background::<A>::from_sequence(st, unk)
+                    }))
+                } else {
+                    fmt_bg_result(no_panic(|| {
+                        let mut st: StripedSequence<A, U32> = Pipeline::<A, _>::generic().stripe(&s[..]);
+                        if wrap > 0 {
+                            st.configure_wrap(wrap);
+                        }
+                        Background::<A>::from_sequence(st, unk)
+                    }))
+                }
             } else {
                 let s = seqs.into_iter().next().unwrap_or_default();
                 fmt_bg_result(no_panic(|| Background::<A>::from_sequence(&s[..], unk)))
@@ -496,10 +518,21 @@ fn run_c10(f: &HashMap<String, String>) -> String {
     )
     .unwrap();
     // arbitrary scoring matrix
-    let raw = ScoringMatrix::<A>::new(Background::uniform(), fmatrix::<A>(&parse_matrix(&f["sm"])));
+    let raw = ScoringMatrix::<A>::new(bg.clone().unwrap_or_default(), fmatrix::<A>(&parse_matrix(&f["sm"])));
     let r1 = raw.reverse_complement();
     let r2 = r1.reverse_complement();
-    write!(out, " r1={} r2={}", fmt_fm(r1.matrix()), fmt_fm(r2.matrix())).unwrap();
+    write!(
+        out,
+        " r1={} r2={} w2bg={} s1bg={} s2bg={} r1bg={} r2bg={}",
+        fmt_fm(r1.matrix()),
+        fmt_fm(r2.matrix()),
+        fmt_f32s(w2.background().frequencies()),
+        fmt_f32s(s1.background().frequencies()),
+        fmt_f32s(s2.background().frequencies()),
+        fmt_f32s(r1.background().frequencies()),
+        fmt_f32s(r2.background().frequencies())
+    )
+    .unwrap();
     // windows on both strands
     let seq = parse_seq::<A>(f.get("seq").map(|s| s.as_str()).unwrap_or("-"));
     let rseq: Vec<_> = seq.iter().rev().map(|&s| Dna::complement(s)).collect();
@@ -564,15 +597,42 @@ fn gen_seq(rng: &mut Rng, alpha: &str, len: usize, wild: u64) -> String {
 fn gen_seqs(rng: &mut Rng, alpha: &str, maxlen: usize, ragged: bool) -> String {
     let n = *rng.pick(&[0usize, 1, 1, 2, 2, 3, 4, 5, 8, 12, 30]);
     let len = rng.below(maxlen as u64 + 1) as usize;
-    let mut v = vec![];
-    for i in 0..n {
-        let mut l = len;
-        if ragged && i > 0 && rng.chance(1, 3) {
-            l = rng.below(maxlen as u64 + 2) as usize;
+    let mut lens = vec![len; n];
+    if ragged && n >= 2 {
+        match rng.below(7) {
+            // an empty first sequence followed by non-empty ones
+            0 => {
+                lens[0] = 0;
+                for l in lens.iter_mut().skip(1) {
+                    *l = len.max(1)
+                }
+            }
+            // the last sequence one symbol longer / shorter than the others
+            1 => lens[n - 1] = len + 1,
+            2 => lens[n - 1] = if len > 0 { len - 1 } else { 1 },
+            // the first sequence longer than all others
+            3 => lens[0] = len + 1 + rng.below(3) as usize,
+            // one later sequence longer (never shorter) than the first
+            4 => {
+                let i = 1 + rng.below(n as u64 - 1) as usize;
+                lens[i] = len + 1 + rng.below(4) as usize
+            }
+            // an empty sequence somewhere after the first
+            5 => {
+                let i = 1 + rng.below(n as u64 - 1) as usize;
+                lens[i] = 0;
+                lens[0] = len.max(1)
+            }
+            _ => {
+                for l in lens.iter_mut().skip(1) {
+                    if rng.chance(1, 3) {
+                        *l = rng.below(maxlen as u64 + 2) as usize
+                    }
+                }
+            }
         }
-        v.push(gen_seq(rng, alpha, l, 6));
     }
-    v.join("/")
+    lens.iter().map(|&l| gen_seq(rng, alpha, l, 6)).collect::<Vec<_>>().join("/")
 }
 
 fn gen_counts(rng: &mut Rng, k: usize, maxrows: usize) -> String {
@@ -720,11 +780,37 @@ fn gen_bg(rng: &mut Rng, k: usize) -> String {
 }
 
 fn gen_base(rng: &mut Rng) -> u32 {
-    match rng.below(8) {
+    match rng.below(12) {
         0 | 1 => 2.0f32.to_bits(),
         2 | 3 => 10.0f32.to_bits(),
         4 => E_BITS,
         5 => 3.5f32.to_bits(),
+        // non-integral bases next to the two fast paths, integral bases without one,
+        // one ulp around 2.0 / 10.0, bases <= 1
+        6 => *rng.pick(&[
+            2.5f32.to_bits(),
+            10.5f32.to_bits(),
+            2.999f32.to_bits(),
+            10.999f32.to_bits(),
+            0x40000001, // 2.0 + ulp
+            0x3FFFFFFF, // 2.0 - ulp
+            0x41200001, // 10.0 + ulp
+            0x411FFFFF, // 10.0 - ulp
+            1.5f32.to_bits(),
+            9.5f32.to_bits(),
+        ]),
+        7 => *rng.pick(&[
+            3.0f32.to_bits(),
+            4.0f32.to_bits(),
+            16.0f32.to_bits(),
+            11.0f32.to_bits(),
+            20.0f32.to_bits(),
+            100.0f32.to_bits(),
+            0.5f32.to_bits(),
+            0.1f32.to_bits(),
+            1.0f32.to_bits(),
+        ]),
+        8 if rng.chance(1, 4) => exotic(rng),
         _ => (1.0625 + unit(rng) * 60.0).to_bits(),
     }
 }
@@ -790,7 +876,7 @@ fn gen_c09(rng: &mut Rng, id: usize, tier: &str) -> String {
     if kind < 62 {
         let src = if rng.chance(3, 5) {
             {
-            let ragged = rng.chance(1, 8);
+            let ragged = rng.chance(1, 6);
             format!("seqs={}", gen_seqs(rng, alpha, maxw, ragged))
         }
         } else {
@@ -798,14 +884,17 @@ fn gen_c09(rng: &mut Rng, id: usize, tier: &str) -> String {
         };
         let l = rng.below(70) as usize;
         let seq = gen_seq(rng, alpha, l, 4);
+        let ps = gen_pseudo(rng, k);
+        let bg = gen_bg(rng, k);
+        let bg2 = if rng.chance(1, 12) { bg.clone() } else { gen_bg(rng, k) };
         format!(
             "g{} k=pipe a={} {} ps={} bg={} bg2={} base={} seq={} cols={}{}",
             id,
             a,
             src,
-            gen_pseudo(rng, k),
-            gen_bg(rng, k),
-            gen_bg(rng, k),
+            ps,
+            bg,
+            bg2,
             gen_base(rng),
             seq,
             rng.pick(&[4, 32]),
@@ -886,18 +975,20 @@ fn gen_c09(rng: &mut Rng, id: usize, tier: &str) -> String {
         let n = rng.below(4) as usize;
         let seqs: Vec<String> = (0..n)
             .map(|_| {
-                let l = *rng.pick(&[0usize, 1, 3, 10, 40]);
-                let wild = *rng.pick(&[0u64, 10, 100]);
+                let l = *rng.pick(&[0usize, 1, 3, 4, 5, 10, 31, 32, 33, 40, 100]);
+                let wild = *rng.pick(&[0u64, 10, 50, 100]);
                 gen_seq(rng, alpha, l, wild)
             })
             .collect();
         format!(
-            "g{} k=bgseq a={} seqs={} unk={} multi={}",
+            "g{} k=bgseq a={} seqs={} unk={} multi={} cols={} wrap={}",
             id,
             a,
             seqs.join("/"),
             rng.below(2),
-            rng.below(2)
+            rng.below(3),
+            rng.pick(&[4, 32]),
+            rng.pick(&[0, 0, 3])
         )
     } else {
         // FrequencyMatrix::new : rows summing to ~1 (within / outside the tolerance)
@@ -940,7 +1031,10 @@ fn gen_c10(rng: &mut Rng, id: usize, tier: &str) -> String {
     // widths 0..=20 are all visited: the width cycles with the case number
     let w = id % (maxw + 1);
     let src = if rng.chance(1, 2) {
-        let n = *rng.pick(&[1usize, 2, 3, 5, 9, 20]);
+        let mut n = *rng.pick(&[1usize, 2, 3, 5, 9, 20]);
+        if w == 0 && rng.chance(1, 3) {
+            n = 0; // from_sequences of an empty collection: the other zero-row matrix
+        }
         let seqs: Vec<String> = (0..n).map(|_| gen_seq(rng, alpha, w, 6)).collect();
         format!("seqs={}", seqs.join("/"))
     } else {
